@@ -432,9 +432,10 @@ void convolve_2d(SrcView const& src_view, Kernel const& kernel, DstView const& d
 
     for (std::size_t i = 0; i < src_view.num_channels(); i++)
     {
+        // the i-th channel of the color space in both views: their layouts may differ (rgb and bgr)
         detail::convolve_2d_impl(
-            nth_channel_view(src_view, i),
-            nth_channel_view(dst_view, i),
+            nth_channel_view(src_view, detail::physical_channel_index<SrcView>(i)),
+            nth_channel_view(dst_view, detail::physical_channel_index<DstView>(i)),
             kernel
         );
     }
